@@ -659,7 +659,11 @@ def service_typestate(chk):
     run_g = prog.pick(unit.methods.get("running", []), "getter")
     if run_g is not None:
         outs = Interp(prog, run_g).run()
-        if not (len(outs) == 1 and outs[0].kind == "return" and outs[0].value == ("attr", SELF, slots.started_flag(prog))):
+        FLAG = ("attr", SELF, slots.started_flag(prog))
+        rv = strip_sites(outs[0].value) if len(outs) == 1 and outs[0].kind == "return" and outs[0].value else None
+        if rv is not None and rv[0] == "call" and rv[1] == ("glob", "ext:builtins.bool") and list(rv[2]) == [FLAG]:
+            rv = FLAG  # bool(flag) of a flag that only ever holds True / False
+        if rv != FLAG:
             chk.bad(rule, run_g.qual, "`running` does not report the started flag", node=run_g.node, stmt="running")
             ok = False
     init = prog.method(SERVICE_UNIT, "__init__")
@@ -773,7 +777,8 @@ def sweep_rules(chk):
                 return running
             return None
 
-        outs = Interp(prog, st, decide=decide, unroll=1).run()
+        denv = util.unsupplied_defaults(prog, st)
+        outs = Interp(prog, st, decide=decide, unroll=1).run(env=denv) if denv else Interp(prog, st, decide=decide, unroll=1).run()
         chk.count(len(outs))
         for o in outs:
             evs = o.path.events
